@@ -1,7 +1,357 @@
-(** C15 placeholder while the pipeline is brought up; replaced by the real theorems. *)
-From Coq Require Import ZArith List Bool.
-From Low Require Import Model.TailBitmap.
+(** C15 — TailBitmap never forgets a set bit nor invents one, across any Set/Compact history.
+
+    Only the property theorems (each closed by [exact]), their axiom audit and
+    non-vacuity examples.  Vocabulary:
+      [run (NewTailBitmap o) ops = Some (s, rs)]  the history [ops] (any list of Set / Compact / Get /
+            Get1 calls, Model/TailBitmap.v) ran without a panic to state [s] with per-call results [rs];
+      [was_set ops j := In (OSet j) ops]           index [j] has been set by the history;
+      [TInv o P off ws]  (Spec/TailBitmapInv.v)    the invariant of DESIGN section 6 for the exported fields;
+      [tb_end off ws := off + 64*len(ws)]          the end of the stored words.
+    No bound on the length of the history, on the number of words or on the indices: arithmetic is
+    unbounded [Z].  That Go's int64 arithmetic agrees is a theorem too (C15_int64_agrees, at the end of
+    this file: any int64 offset, indices away from the last word of the int64 range), and the one place
+    where it does not is exhibited (C15_int64_top_word_refuted). *)
+From Coq Require Import ZArith List Bool Lia.
+From Low Require Import Lib.Bits Lib.BitSeq Model.TailBitmap Spec.TailBitmapSpec Spec.TailBitmapInv
+  Spec.TailBitmapObs Proofs.TailBitmapProofs Proofs.TailBitmapHist Proofs.TailBitmapChecker
+  Proofs.TailBitmapSound Proofs.TailBitmapLiteral Proofs.TailBitmapWords Run.C15.
+From Low Require Import Lib.MachInt Model.TailBitmapI64 Proofs.TailBitmapI64Proofs Proofs.TailBitmapI64Checker.
+From Low Require Model.BitmapOf.
+Import ListNotations.
 Open Scope Z_scope.
-Theorem C15_new_partial : forall o, Offset (NewTailBitmap o) = o /\ Words (NewTailBitmap o) = nil.
-Proof. exact (fun o => conj eq_refl eq_refl). Qed.
-Print Assumptions C15_new_partial.
+
+(** The invariant holds in every reachable state: Offset is a multiple of 64 and at least [o]; the
+    first stored word is not all-ones; everything below Offset is a member (Offset never moved past a
+    position that is still 0); every stored bit is 1 exactly when its index has been set; every index
+    ever set is below the end of the stored words. *)
+Theorem C15_invariant : forall o ops s rs, o mod 64 = 0 ->
+  run (NewTailBitmap o) ops = Some (s, rs) ->
+  TInv o (was_set ops) (Offset s) (Words s).
+Proof. exact reach_TInv. Qed.
+Print Assumptions C15_invariant.
+
+(** Along any history Offset and the end of the stored words never decrease, and Offset only moves
+    past positions that have been set (the run of the concatenation is the concatenation of the runs). *)
+Theorem C15_offset_monotone : forall o ops1 ops2 s1 rs1 s2 rs2, o mod 64 = 0 ->
+  run (NewTailBitmap o) ops1 = Some (s1, rs1) -> run s1 ops2 = Some (s2, rs2) ->
+  Offset s1 <= Offset s2 /\
+  tb_end (Offset s1) (Words s1) <= tb_end (Offset s2) (Words s2) /\
+  (forall j, Offset s1 <= j < Offset s2 -> was_set (ops1 ++ ops2) j) /\
+  run (NewTailBitmap o) (ops1 ++ ops2) = Some (s2, rs1 ++ rs2).
+Proof. exact reach_mono. Qed.
+Print Assumptions C15_offset_monotone.
+
+(** Get1(j) is 1 exactly when j < o or j has been set, and Get(j) is that bit at position j mod 64,
+    for EVERY j below the end of the stored words (negative j included). [m] is the truth value of
+    "j is a member". *)
+Theorem C15_Get_is_membership : forall o ops s rs j (m : bool), o mod 64 = 0 ->
+  run (NewTailBitmap o) ops = Some (s, rs) ->
+  j < tb_end (Offset s) (Words s) ->
+  (m = true <-> j < o \/ was_set ops j) ->
+  Get1 s j = Some (Z.b2z m) /\ Get s j = Some (Z.shiftl (Z.b2z m) (j mod 64)).
+Proof. exact reach_Get. Qed.
+Print Assumptions C15_Get_is_membership.
+
+(** Get/Get1 are defined (do not panic) exactly below the end of the stored words. *)
+Theorem C15_Get_defined_below_end : forall o ops s rs j, o mod 64 = 0 ->
+  run (NewTailBitmap o) ops = Some (s, rs) ->
+  (Get s j <> None <-> j < tb_end (Offset s) (Words s)) /\
+  (Get1 s j <> None <-> j < tb_end (Offset s) (Words s)).
+Proof. exact reach_Get_defined. Qed.
+Print Assumptions C15_Get_defined_below_end.
+
+(** The result recorded for the k-th call of a history, when it is a probe, is membership with
+    respect to the Sets that came BEFORE it. *)
+Theorem C15_probe_results : forall o ops s rs k j (m : bool), o mod 64 = 0 ->
+  run (NewTailBitmap o) ops = Some (s, rs) ->
+  (m = true <-> j < o \/ was_set (firstn k ops) j) ->
+  (nth_error ops k = Some (OGet1 j) -> nth_error rs k = Some (Z.b2z m)) /\
+  (nth_error ops k = Some (OGet j) -> nth_error rs k = Some (Z.shiftl (Z.b2z m) (j mod 64))).
+Proof. exact reach_probe. Qed.
+Print Assumptions C15_probe_results.
+
+(** Every index ever set is below the end of the stored words (so the two theorems above cover every
+    j up to the highest index ever set). *)
+Theorem C15_set_below_end : forall o ops s rs idx, o mod 64 = 0 ->
+  run (NewTailBitmap o) ops = Some (s, rs) -> In (OSet idx) ops ->
+  idx < tb_end (Offset s) (Words s).
+Proof. exact reach_set_below_end. Qed.
+Print Assumptions C15_set_below_end.
+
+(** Compact changes no Get / Get1 result, for any j whatsoever, and not the end. *)
+Theorem C15_Compact_changes_no_Get : forall o ops s rs, o mod 64 = 0 ->
+  run (NewTailBitmap o) ops = Some (s, rs) ->
+  tb_end (Offset (Compact s)) (Words (Compact s)) = tb_end (Offset s) (Words s) /\
+  forall j, Get (Compact s) j = Get s j /\ Get1 (Compact s) j = Get1 s j.
+Proof. exact reach_Compact. Qed.
+Print Assumptions C15_Compact_changes_no_Get.
+
+(** In a reachable state Set and Compact never panic, and a probe below the end never panics: a
+    history whose probes are below the end at their time runs to completion. *)
+Theorem C15_no_panic : forall o ops s rs, o mod 64 = 0 ->
+  run (NewTailBitmap o) ops = Some (s, rs) ->
+  forall p, (forall j, p = OGet j \/ p = OGet1 j -> j < tb_end (Offset s) (Words s)) ->
+  step s p <> None.
+Proof. exact reach_no_panic. Qed.
+Print Assumptions C15_no_panic.
+
+(** The bulk calls of the correspondence protocol are nothing but iterated Set. *)
+Theorem C15_bulk_is_iterated_Set : forall n s idx,
+  set_up n s idx = option_map fst (run s (map OSet (zrange_up idx n))) /\
+  set_down n s idx = option_map fst (run s (map OSet (zrange_down idx n))).
+Proof. exact (fun n s idx => conj (set_up_run n s idx) (set_down_run n s idx)). Qed.
+Print Assumptions C15_bulk_is_iterated_Set.
+
+(** The executable checker that ./check applies to the implementation's observations
+    (Spec/TailBitmapSpec.v: check_history) accepts the model's answer on every protocol history,
+    bulk calls included, with ([model_history], the protocol's size-bounded domain) or without
+    ([prun]) the protocol's domain restrictions. *)
+Theorem C15_checker_accepts_model : forall o ps l,
+  (model_history o ps = OOk l -> check_history o ps l = true) /\
+  (o mod 64 = 0 -> prun (NewTailBitmap o) ps = Some l -> check_history o ps l = true).
+Proof. exact (fun o ps l => conj (model_history_accepted o ps l) (prun_accepted o ps l)). Qed.
+Print Assumptions C15_checker_accepts_model.
+
+(** The executable checker DECIDES the property of an observed history: on the observations of any
+    implementation (uint64 words), [check_history] answers true exactly when every observed state
+    satisfies the invariant for the indices set so far, Offset and the end are monotone, Offset only
+    passed set positions, every probe returned membership and Compact kept the end
+    ([obs_ok], Spec/TailBitmapObs.v).  So OK / SPECFAIL of ./check are statements about the property. *)
+Theorem C15_checker_decides_property : forall o ps obs, o mod 64 = 0 ->
+  Forall (fun ob => words_ok (snd (fst ob))) obs ->
+  (check_history o ps obs = true <-> obs_ok o (o, []) [] ps obs).
+Proof. exact check_history_iff. Qed.
+Print Assumptions C15_checker_decides_property.
+
+
+(** non-vacuity: o = 64; set 127 (the last bit of word 0), a set below the offset (ignored), fill
+    word 0 back to front so that Offset advances to 128, set a bit two words further, probe a stored 1
+    (Get1 and Get), a stored 0 and an implicit 1, Compact. *)
+Definition c15_ex_ops : list op :=
+  [OSet 127; OSet 3] ++ map OSet (zrange_down 126 63) ++ [OSet 300; OGet1 300; OGet 300; OGet1 299; OGet1 70; OCompact].
+
+Example C15_nonvacuous :
+  64 mod 64 = 0 /\
+  exists s rs, run (NewTailBitmap 64) c15_ex_ops = Some (s, rs) /\
+    Offset s = 128 /\ Words s = [0; 0; 2^44] /\ tb_end (Offset s) (Words s) = 320 /\
+    nth_error rs 66 = Some 1 /\ nth_error rs 67 = Some (2^44) /\ nth_error rs 68 = Some 0 /\
+    nth_error rs 69 = Some 1 /\
+    Get1 s 300 = Some 1 /\ Get s 300 = Some (Z.shiftl 1 (300 mod 64)) /\ Get1 s 299 = Some 0 /\
+    Get s 320 = None /\ Get1 s (-1) = Some 1.
+Proof.
+  split; [reflexivity|]. eexists. eexists. split; [vm_compute; reflexivity|].
+  vm_compute. repeat split; reflexivity.
+Qed.
+
+(** non-vacuity of the monotonicity statement: a history split in two, Offset moves 0 -> 64 -> 128 *)
+Example C15_monotone_nonvacuous :
+  exists s1 rs1 s2 rs2,
+    run (NewTailBitmap 0) (map OSet (zrange_up 0 64)) = Some (s1, rs1) /\
+    run s1 (map OSet (zrange_down 127 64)) = Some (s2, rs2) /\
+    Offset s1 = 64 /\ Offset s2 = 128 /\ Words s2 = [].
+Proof.
+  eexists. eexists. eexists. eexists.
+  split; [vm_compute; reflexivity|]. split; [vm_compute; reflexivity|]. vm_compute. auto.
+Qed.
+
+(** non-vacuity of the checker theorem: a protocol history with a bulk fill that the model answers *)
+Example C15_checker_nonvacuous :
+  exists l, model_history 64 [PSetUp 64 200; PGet1 199; PGet 200; PSet 255; PCompact; PSetDown 200 255] = OOk l /\
+            length l = 6%nat /\
+            check_history 64 [PSetUp 64 200; PGet1 199; PGet 200; PSet 255; PCompact; PSetDown 200 255] l = true.
+Proof. eexists. split; [vm_compute; reflexivity|]. vm_compute. auto. Qed.
+
+(** non-vacuity of the decision theorem: an accepted observed history, and a rejected one (a stored
+    bit that was never set: the implementation "invented" bit 70) *)
+Example C15_decides_nonvacuous :
+  check_history 64 [PSet 127; PGet1 127] [(64, [2^63], 0); (64, [2^63], 1)] = true /\
+  check_history 64 [PSet 127; PGet1 127] [(64, [2^63 + 64], 0); (64, [2^63 + 64], 1)] = false /\
+  Forall (fun ob : Z * list Z * Z => words_ok (snd (fst ob))) [(64, [2^63], 0); (64, [2^63], 1)].
+Proof.
+  split; [vm_compute; reflexivity|]. split; [vm_compute; reflexivity|].
+  repeat constructor; cbn; lia.
+Qed.
+
+(** ------------------------------------------------------------------------------------------------
+    WIDENED (1): histories that start from an arbitrary well-formed struct literal
+    [TailBitmap{Offset: off, Words: ws}] (any value of the unexported [reclaimed]) instead of
+    NewTailBitmap.  The bits stored in the literal count as set ([lit_set]); the invariant without the
+    head clause ([TInvW]) holds in every reachable state, Offset and the end never decrease, and the
+    head clause holds whenever the literal's first word was not all-ones ... *)
+Theorem C15_literal_invariant : forall off ws r0 ops s rs, off mod 64 = 0 -> words_ok ws ->
+  run (mkTB off ws r0) ops = Some (s, rs) ->
+  TInvW off (fun j => lit_set off ws j \/ was_set ops j) (Offset s) (Words s) /\
+  off <= Offset s /\ tb_end off ws <= tb_end (Offset s) (Words s) /\
+  (head_ok ws -> head_ok (Words s)).
+Proof. exact lit_reach. Qed.
+Print Assumptions C15_literal_invariant.
+
+(** ... or from the first Compact on. *)
+Theorem C15_literal_head_after_Compact : forall off ws r0 ops s rs, off mod 64 = 0 -> words_ok ws ->
+  run (mkTB off ws r0) ops = Some (s, rs) -> In OCompact ops -> head_ok (Words s).
+Proof. exact lit_head_after_Compact. Qed.
+Print Assumptions C15_literal_head_after_Compact.
+
+(** In ANY state, Compact, and a Set into the first stored word (which runs Compact), leave a first
+    word that is not all-ones. *)
+Theorem C15_head_after_Compact_or_Set_into_first_word :
+  (forall s, head_ok (Words (Compact s))) /\
+  (forall s idx s', Offset s <= idx < Offset s + 64 -> Set_ s idx = Some s' -> head_ok (Words s')).
+Proof. exact (conj Compact_head Set_head). Qed.
+Print Assumptions C15_head_after_Compact_or_Set_into_first_word.
+
+(** Get1 / Get = membership (below Offset, stored in the literal, or set since) below the end. *)
+Theorem C15_literal_Get_is_membership : forall off ws r0 ops s rs j (m : bool), off mod 64 = 0 -> words_ok ws ->
+  run (mkTB off ws r0) ops = Some (s, rs) ->
+  j < tb_end (Offset s) (Words s) ->
+  (m = true <-> j < off \/ lit_set off ws j \/ was_set ops j) ->
+  Get1 s j = Some (Z.b2z m) /\ Get s j = Some (Z.shiftl (Z.b2z m) (j mod 64)).
+Proof. exact lit_Get. Qed.
+Print Assumptions C15_literal_Get_is_membership.
+
+Theorem C15_literal_no_panic : forall off ws r0 ops s rs, off mod 64 = 0 -> words_ok ws ->
+  run (mkTB off ws r0) ops = Some (s, rs) ->
+  forall p, (forall j, p = OGet j \/ p = OGet1 j -> j < tb_end (Offset s) (Words s)) ->
+  step s p <> None.
+Proof. exact lit_no_panic. Qed.
+Print Assumptions C15_literal_no_panic.
+
+(** The checker of the protocol operation bitmap.TailBitmap/literal accepts the model. *)
+Theorem C15_literal_checker_accepts_model : forall off ws ps l,
+  model_literal off ws ps = OOk l -> check_literal off ws ps l = true.
+Proof. exact model_literal_accepted. Qed.
+Print Assumptions C15_literal_checker_accepts_model.
+
+(** ... and decides the Prop-level property [lit_obs_ok] (Spec/TailBitmapObs.v) of an observed history. *)
+Theorem C15_literal_checker_decides_property : forall off ws ps obs, off mod 64 = 0 -> words_ok ws ->
+  Forall (fun ob => words_ok (snd (fst ob))) obs ->
+  (check_literal off ws ps obs = true <-> lit_obs_ok off ws ps obs).
+Proof. exact check_literal_iff. Qed.
+Print Assumptions C15_literal_checker_decides_property.
+
+(** WIDENED (2): the exported Words read with the plain bitmap functions (Model/BitmapOf.v).
+    In ANY state, for any j >= Offset, bitmap.Get / Get1 on Words at j - Offset are the same reads as
+    TailBitmap.Get / Get1 at j (they panic together past the end); SafeGet / SafeGet1 agree below the
+    end and return 0 at or past it. *)
+Theorem C15_Words_reads_agree : forall s j, Offset s <= j ->
+  (BitmapOf.Get (Words s) (j - Offset s) = Get s j /\
+   BitmapOf.Get1 (Words s) (j - Offset s) = Get1 s j) /\
+  (j < tb_end (Offset s) (Words s) ->
+   BitmapOf.SafeGet (Words s) (j - Offset s) = Get s j /\
+   BitmapOf.SafeGet1 (Words s) (j - Offset s) = Get1 s j) /\
+  (tb_end (Offset s) (Words s) <= j ->
+   BitmapOf.SafeGet (Words s) (j - Offset s) = Some 0 /\
+   BitmapOf.SafeGet1 (Words s) (j - Offset s) = Some 0).
+Proof.
+  exact (fun s j Hj => conj (words_Get_agree s j Hj)
+                            (conj (words_Safe_in s j Hj) (words_Safe_out s j Hj))).
+Qed.
+Print Assumptions C15_Words_reads_agree.
+
+(** Hence, after any history, all six reads of a stored position are membership ... *)
+Theorem C15_Words_are_membership : forall o ops s rs j (m : bool), o mod 64 = 0 ->
+  run (NewTailBitmap o) ops = Some (s, rs) ->
+  Offset s <= j < tb_end (Offset s) (Words s) ->
+  (m = true <-> j < o \/ was_set ops j) ->
+  let i := j - Offset s in
+  let g := Some (Z.shiftl (Z.b2z m) (j mod 64)) in
+  let b := Some (Z.b2z m) in
+  Get s j = g /\ BitmapOf.Get (Words s) i = g /\ BitmapOf.SafeGet (Words s) i = g /\
+  Get1 s j = b /\ BitmapOf.Get1 (Words s) i = b /\ BitmapOf.SafeGet1 (Words s) i = b.
+Proof. exact reach_words. Qed.
+Print Assumptions C15_Words_are_membership.
+
+(** ... and at or past the end the Safe forms return 0, rightly: such a position is not a member. *)
+Theorem C15_Words_past_end : forall o ops s rs j, o mod 64 = 0 ->
+  run (NewTailBitmap o) ops = Some (s, rs) ->
+  tb_end (Offset s) (Words s) <= j ->
+  BitmapOf.SafeGet (Words s) (j - Offset s) = Some 0 /\
+  BitmapOf.SafeGet1 (Words s) (j - Offset s) = Some 0 /\
+  ~ (j < o \/ was_set ops j).
+Proof. exact reach_words_past_end. Qed.
+Print Assumptions C15_Words_past_end.
+
+(** The checker of the protocol operation bitmap.TailBitmap/words accepts the model. *)
+Theorem C15_words_checker_accepts_model : forall o ps js es,
+  model_words o ps js = Some (Some es) -> check_words o (hist_after [] ps) js es = true.
+Proof. exact model_words_accepted. Qed.
+Print Assumptions C15_words_checker_accepts_model.
+
+(** non-vacuity (literal): two leading all-ones words and a partial one; a far Set leaves the all-ones
+    head in place (the head clause does NOT hold: that is why it is not claimed); Compact drops both. *)
+Example C15_literal_nonvacuous :
+  words_ok [2^64 - 1; 2^64 - 1; 5] /\
+  exists s1 rs1 s2 rs2,
+    run (mkTB 64 [2^64 - 1; 2^64 - 1; 5] 0) [OSet 300; OGet1 70; OGet1 193] = Some (s1, rs1) /\
+    Offset s1 = 64 /\ Words s1 = [2^64 - 1; 2^64 - 1; 5; 2^44] /\ rs1 = [0; 1; 0] /\
+    run s1 [OCompact; OGet1 192; OGet 194; OGet1 300] = Some (s2, rs2) /\
+    Offset s2 = 192 /\ Words s2 = [5; 2^44] /\ rs2 = [0; 1; 4; 1].
+Proof.
+  split; [apply words_okb_ok; reflexivity|].
+  eexists. eexists. eexists. eexists.
+  split; [vm_compute; reflexivity|]. split; [reflexivity|]. split; [reflexivity|]. split; [reflexivity|].
+  split; [vm_compute; reflexivity|]. vm_compute. auto.
+Qed.
+
+Example C15_literal_checker_nonvacuous :
+  exists l, model_literal 64 [2^64 - 1; 5] [PGet1 64; PSet 300; PCompact; PGet1 128; PGet1 129] = OOk l /\
+            length l = 5%nat /\
+            check_literal 64 [2^64 - 1; 5] [PGet1 64; PSet 300; PCompact; PGet1 128; PGet1 129] l = true.
+Proof. eexists. split; [vm_compute; reflexivity|]. vm_compute. auto. Qed.
+
+(** non-vacuity (words): after filling word 0 of o = 64 and setting 200, position 200 read six ways,
+    an unset stored position, and a position past the end *)
+Example C15_words_nonvacuous :
+  model_words 64 [PSetUp 64 128; PSet 200] [200; 201; 256] =
+    Some (Some [[2^8; 2^8; 1; 1; 2^8; 1]; [0; 0; 0; 0; 0; 0]; [0; 0]]) /\
+  check_words 64 (hist_after [] [PSetUp 64 128; PSet 200]) [200; 201; 256]
+    [[2^8; 2^8; 1; 1; 2^8; 1]; [0; 0; 0; 0; 0; 0]; [0; 0]] = true.
+Proof. split; vm_compute; reflexivity. Qed.
+
+(** ------------------------------------------------------------------------------------------------
+    WIDENED (3): Go's int64 arithmetic, instead of the size hypothesis of DESIGN section 3.
+    [run64] (Model/TailBitmapI64.v) wraps every int64 operation of the source that can leave the range
+    ([idx - Offset], [Offset += 64], [Offset - reclaimed]).  For ANY int64 initial offset it equals the
+    unbounded model on every history whose indices are int64, at most 2^61 - 64 above [o], and (for
+    Set) below the last 64-bit word of the int64 range -- so all theorems above hold of the int64
+    code on those histories. *)
+Theorem C15_int64_agrees : forall o ops, in_i64 o -> o <= 2^63 - 1 -> Forall (abs_op o) ops ->
+  run64 (NewTailBitmap o) ops = run (NewTailBitmap o) ops.
+Proof. exact reach64_eq. Qed.
+Print Assumptions C15_int64_agrees.
+
+(** The excluded case is a genuine failure of the property for an in-range offset and in-range
+    indices: NewTailBitmap(MaxInt64 - 63) and its 64 positions set one by one.  [Offset += 64] wraps to
+    MinInt64 (Offset DEcreases, below o) and Get/Get1 of a position that was set panic.  Replayed on
+    the real code: docs/selftest-C15.md ("int64 boundary"). *)
+Theorem C15_int64_top_word_refuted :
+  let o := 2^63 - 64 in
+  let ops := map OSet (zrange_up o 64) in
+  o mod 64 = 0 /\ in_i64 o /\ Forall (fun p => match p with OSet j => in_i64 j | _ => True end) ops /\
+  exists s rs, run64 (NewTailBitmap o) ops = Some (s, rs) /\
+    Offset s = - 2^63 /\ Offset s < o /\ Words s = [] /\
+    Get1_64 s (2^63 - 1) = None /\ Get64 s (2^63 - 1) = None.
+Proof. exact top_of_range_witness. Qed.
+Print Assumptions C15_int64_top_word_refuted.
+
+(** The checker accepts the int64 model on the domain of the protocol operation bitmap.TailBitmap/int64
+    (any int64 offset; Set indices below the last word of the range and less than 2^22 above Offset). *)
+Theorem C15_int64_checker_accepts_model : forall o ps l,
+  model_history64 o ps = OOk l -> check_history o ps l = true.
+Proof. exact model_history64_accepted. Qed.
+Print Assumptions C15_int64_checker_accepts_model.
+
+(** non-vacuity of the agreement: the second-to-last word of the int64 range, filled and compacted *)
+Example C15_int64_nonvacuous :
+  let o := 2^63 - 128 in
+  in_i64 o /\ Forall (abs_op o) (map OSet (zrange_up o 64) ++ [OGet1 (2^63 - 65)]) /\
+  exists s rs, run64 (NewTailBitmap o) (map OSet (zrange_up o 64) ++ [OGet1 (2^63 - 65)]) = Some (s, rs) /\
+               Offset s = 2^63 - 64 /\ Words s = [] /\ nth_error rs 64 = Some 1.
+Proof.
+  cbv zeta. split; [unfold in_i64; lia|]. split.
+  - apply Forall_app. split.
+    + apply Forall_forall. intros p Hp. apply in_map_iff in Hp. destruct Hp as (j & <- & Hj).
+      apply zrange_up_In in Hj. cbn [abs_op]. unfold in_i64. lia.
+    + constructor; [cbn [abs_op]; unfold in_i64; lia|constructor].
+  - eexists. eexists. split; [vm_compute; reflexivity|]. vm_compute. auto.
+Qed.
